@@ -170,3 +170,62 @@ func registerBits(e *Engine) {
 		}
 	}
 }
+
+// encoding/json for flat structs of integer fields (reflection cannot be
+// interpreted): Marshal is a fixed-width big-endian dump of the fields,
+// Unmarshal its inverse. Only the round trip through a file matters to the
+// kernels that use it (PD allocator checkpoint); the real JSON text is used by
+// the native replay.
+func init() {
+	extraExternals = append(extraExternals, func(e *Engine) {
+		x := e.externals
+		x["encoding/json.Marshal"] = func(p *Path, th *Thread, fr *frame, a []Value) Value {
+			it := a[0].(Iface)
+			st, ok := it.V.(Struct)
+			if !ok {
+				engErr("json.Marshal: only flat integer structs are modelled (got %v)", it.T)
+			}
+			var out []Value
+			for _, f := range st {
+				t, ok := f.(*Term)
+				if !ok || t.W == 0 || t.W%8 != 0 {
+					engErr("json.Marshal: unsupported field in %v", it.T)
+				}
+				for b := t.W/8 - 1; b >= 0; b-- {
+					out = append(out, Extract(t, b*8+7, b*8))
+				}
+			}
+			return Tuple{out, Iface{}}
+		}
+		x["encoding/json.Unmarshal"] = func(p *Path, th *Thread, fr *frame, a []Value) Value {
+			data := a[0].([]Value)
+			it := a[1].(Iface)
+			ptr, ok := it.V.(*Value)
+			if !ok || ptr == nil {
+				engErr("json.Unmarshal: target must be a struct pointer")
+			}
+			st, ok := (*ptr).(Struct)
+			if !ok {
+				engErr("json.Unmarshal: only flat integer structs are modelled")
+			}
+			pos := 0
+			for i, f := range st {
+				t := f.(*Term)
+				n := t.W / 8
+				if pos+n > len(data) {
+					return p.eng.makeError(p, "json: unexpected end of input", nil)
+				}
+				v := data[pos].(*Term)
+				for k := 1; k < n; k++ {
+					v = Concat(v, data[pos+k].(*Term))
+				}
+				st[i] = v
+				pos += n
+			}
+			if pos != len(data) {
+				return p.eng.makeError(p, "json: trailing data", nil)
+			}
+			return Iface{}
+		}
+	})
+}
